@@ -437,6 +437,62 @@ def api_c_seq_pair(n1, o1, n2, o2, b):
     return {"ddl": text, "got": got, "expected": want, "reproduced": got != want}
 
 
+# ------------------------------------------------------------------ C02: CHECK expressions, every declaration form ----
+CHECK_EXPRS = ["a > 0", "length(b) > 3", "my.fn(a) > 1", "a <> 3", "a >= 0 and a <= 10", "coalesce(a, 0) < 10", "a < 5"]
+# (not in the catalogue - these do not parse at the pinned commit in any form and are listed in DESIGN.md as observed limits:
+#  `a > 0 AND length(b) < 5`, `length(b) < 5 and a > 1`, `(a + 1) * 2 > b`, `b LIKE 'x%'`, `upper(b) = 'X'`)
+CHECK_FORMS = [
+    ("inline", "CREATE TABLE t (a int CHECK ({E}), b varchar(9));", lambda r: (r[0]["columns"][0]["check"], [r[0]["columns"][1]["check"], r[0]["checks"], r[0]["alter"]])),
+    ("table-level named", "CREATE TABLE t (a int, b varchar(9), CONSTRAINT c CHECK ({E}));",
+     lambda r: (r[0]["checks"][0]["statement"] if len(r[0]["checks"]) == 1 and r[0]["checks"][0]["constraint_name"] == "c" else None, [c["check"] for c in r[0]["columns"]] + [r[0]["alter"]])),
+    ("table-level unnamed", "CREATE TABLE t (a int, b varchar(9), CHECK ({E}));",
+     lambda r: (r[0]["checks"][0]["statement"] if len(r[0]["checks"]) == 1 else None, [c["check"] for c in r[0]["columns"]] + [r[0]["alter"]])),
+    ("ALTER ADD CHECK", "CREATE TABLE t (a int, b varchar(9));\nALTER TABLE t ADD CHECK ({E});",
+     lambda r: (r[0]["alter"]["checks"][0]["statement"] if len(r[0]["alter"].get("checks", [])) == 1 else None, [c["check"] for c in r[0]["columns"]] + [r[0]["checks"]])),
+    ("ALTER ADD CONSTRAINT CHECK", "CREATE TABLE t (a int, b varchar(9));\nALTER TABLE t ADD CONSTRAINT c CHECK ({E});",
+     lambda r: (r[0]["alter"]["checks"][0]["statement"] if len(r[0]["alter"].get("checks", [])) == 1 and r[0]["alter"]["checks"][0]["constraint_name"] == "c" else None,
+                [c["check"] for c in r[0]["columns"]] + [r[0]["checks"]])),
+]
+NCE, NCF = len(CHECK_EXPRS), len(CHECK_FORMS)
+
+
+def _check_ok(res, ei, fi) -> bool:
+    try:
+        if not isinstance(res, list) or len(res) != 1 or [c["name"] for c in res[0]["columns"]] != ["a", "b"]:
+            return False
+        where, elsewhere = CHECK_FORMS[fi][2](res)
+    except Exception:
+        return False
+    return where is not None and squeeze(where) == squeeze(CHECK_EXPRS[ei]) and all(not x for x in elsewhere)
+
+
+def c_check_expr(ei: int, fi: int) -> bool:
+    """
+    C02: CHECK expression #ei (comparisons with < > <> >= <=, function calls before the comparison,
+    schema-qualified functions, and / AND) declared in form #fi (inline, table-level named /
+    unnamed, ALTER TABLE ADD [CONSTRAINT c] CHECK): reported exactly once, in the place of its
+    form, with its text (blank-insensitive) and constraint name; nowhere else.
+
+    pre: 0 <= ei < NCE and 0 <= fi < NCF
+    post: _
+    """
+    try:
+        res = run(CHECK_FORMS[fi][1].replace("{E}", CHECK_EXPRS[ei]))
+    except Exception:
+        return False
+    return _check_ok(res, ei, fi)
+
+
+def api_c_check_expr(ei, fi):
+    from simple_ddl_parser import DDLParser
+    ddl = CHECK_FORMS[fi][1].replace("{E}", CHECK_EXPRS[ei])
+    try:
+        got = DDLParser(ddl).run()
+    except Exception as e:
+        return {"ddl": ddl, "raised": f"{type(e).__name__}: {e}", "reproduced": True}
+    return {"ddl": ddl, "form": CHECK_FORMS[fi][0], "expected_check": CHECK_EXPRS[ei], "got": got, "reproduced": not _check_ok(got, ei, fi)}
+
+
 # ------------------------------------------------------------------ C11 ----------------------
 _CL = json.load(open(os.path.join(CAT, "clauses.json")))
 BODY = _CL["body"]
